@@ -42,4 +42,11 @@ for sv in itertools.product(vals, repeat=len(names)):
                 if to.get_tag_dict() != e[0] or u2 != e[1] or sorted(c2) != e[2]:
                     verdict(True, "_merge_to did not store the reconciled dictionary",
                             input=dict(source=str(src), dest=str(dst), overwrite=overwrite), observed=str((to.get_tag_dict(), u2, c2)), expected=str(e))
+from breezy.bzr.tag import BasicTags
+for d in ({}, {"a": b"r1"}, {"v1.0": b"r1", "e\u0301": b"r2"}, {"\u00e9": b"r1", "e\u0301": b"r2"}, {"\u212b": b"r1", "\u1100\u1161": b"r3"},
+          {"tag with space": b"r1", "\u00df\u00fc": b"r2", "\U0001F600": b"r3"}):
+    tried += 1
+    back = BasicTags._deserialize_tag_dict(None, BasicTags._serialize_tag_dict(None, dict(d)))
+    if back != d:
+        verdict(True, "tag dictionary does not round-trip through the tag file format", input=repr(d), observed=repr(back))
 verdict(False, "no failing input among %d enumerated inputs" % tried)
